@@ -124,22 +124,26 @@ func (it *Iterator) Seek(target []byte) bool {
 		return false
 	}
 
-	// Binary search through restart points
+	// Binary search for the last restart point whose key is <= target: the
+	// first key >= target lies in the interval that starts there (or is the
+	// first key of the block when every restart key is > target)
 	left, right := 0, len(it.reader.restartPoints)-1
 	for left < right {
-		mid := (left + right) / 2
+		mid := (left + right + 1) / 2
 		it.restartIdx = mid
 		it.currentPos = it.reader.restartPoints[mid]
 
 		key, _, ok := it.decodeCurrent()
 		if !ok {
+			it.currentKey = nil
+			it.currentVal = nil
 			return false
 		}
 
-		if bytes.Compare(key, target) < 0 {
-			left = mid + 1
+		if bytes.Compare(key, target) <= 0 {
+			left = mid
 		} else {
-			right = mid
+			right = mid - 1
 		}
 	}
 
@@ -148,45 +152,25 @@ func (it *Iterator) Seek(target []byte) bool {
 	it.currentPos = it.reader.restartPoints[left]
 	it.initialized = true
 
-	// First check the current position
+	// Scan forward until we find the first key >= target
 	key, val, ok := it.decodeCurrent()
-	if !ok {
-		return false
-	}
-
-	// If the key at this position is already >= target, we're done
-	if bytes.Compare(key, target) >= 0 {
-		it.currentKey = key
-		it.currentVal = val
-		return true
-	}
-
-	// Otherwise, scan forward until we find the first key >= target
-	for {
-		savePos := it.currentPos
-		key, val, ok = it.decodeNext()
-		if !ok {
-			// Restore position to the last valid entry
-			it.currentPos = savePos
-			key, val, ok = it.decodeCurrent()
-			if ok {
-				it.currentKey = key
-				it.currentVal = val
-				return true
-			}
-			return false
-		}
-
+	for ok {
 		if bytes.Compare(key, target) >= 0 {
 			it.currentKey = key
 			it.currentVal = val
 			return true
 		}
 
-		// Update current key/value for the next iteration
+		// Update current key/value for the next iteration (delta decoding)
 		it.currentKey = key
 		it.currentVal = val
+		key, val, ok = it.decodeNext()
 	}
+
+	// Every key in this block is < target
+	it.currentKey = nil
+	it.currentVal = nil
+	return false
 }
 
 // Next advances the iterator to the next entry
